@@ -665,9 +665,20 @@ static void ref_insert(hist *h, unsigned len, unsigned off, uint32_t v) {
     h->ref[off] = v;
 }
 
+/* called AFTER the library's delete of element `off` from an array of `len`
+ * elements.  The array now has len - 1 elements; what the vacated position
+ * len - 1 holds is not specified (the header: "move all values above 'offset'
+ * down one position"; the pinned code leaves the old last element there,
+ * clearing it would be as good), so the reference adopts whatever it reads as.
+ * The bits of that position are still covered by the storage oracles (only
+ * the slots of elements off..len-1 may change) and element len, which may
+ * share a slot with it, is compared as before. */
 static void ref_delete(hist *h, unsigned len, unsigned off) {
     for (unsigned j = off; j + 1 < len; j++) {
         h->ref[j] = h->ref[j + 1];
+    }
+    if (len >= 1 && len - 1 < h->n) {
+        h->ref[len - 1] = h->in->get(h->mem, len - 1) & h->mask;
     }
 }
 
